@@ -247,6 +247,31 @@ Definition paint_tile (text_mode : bool) (num_attr fg : Z) (v : bounds) (m : bit
   if negb (int16_ok x && int16_ok y) then Err 6 else
   flood_fill_pat (tile_fuel v) v m x y (mkPat false tile bg) (attr_index num_attr fg border_idx).
 
+(* ---- the last referenced graphics point (Graphics._last_point) across PAINT statements.
+   _flood_fill records the physical seed as last point after the bounds check and BEFORE the start-on-border
+   check: a PAINT whose seed is inside the viewport moves the last point even if it paints nothing; a seed
+   outside the viewport, and a PAINT that raises an error, leave it.  PAINT STEP (dx,dy) starts at last point +
+   (dx,dy) (no WINDOW). *)
+Definition gstate := (bitmap * (Z * Z))%type.
+Record paint_stmt := mkStmt { s_step : bool; s_x : Z; s_y : Z; s_c : option Z; s_b : option Z }.
+
+Definition stmt_seed (lp : Z * Z) (st : paint_stmt) : Z * Z :=
+  if s_step st then (fst lp + s_x st, snd lp + s_y st) else (s_x st, s_y st).
+
+Definition paint_lp (text_mode : bool) (num_attr fg : Z) (v : bounds) (g : gstate) (st : paint_stmt)
+  : res gstate :=
+  let '(sx, sy) := stmt_seed (snd g) st in
+  do m' <- paint text_mode num_attr fg v (fst g) sx sy (s_c st) (s_b st);
+  Ok (m', if in_view v sx sy then (sx, sy) else snd g).
+
+(* a program of PAINT statements under ON ERROR: the first error ends it *)
+Fixpoint paint_hist (text_mode : bool) (num_attr fg : Z) (v : bounds) (g : gstate) (l : list paint_stmt)
+  : res gstate :=
+  match l with
+  | [] => Ok g
+  | st :: r => do g' <- paint_lp text_mode num_attr fg v g st; paint_hist text_mode num_attr fg v g' r
+  end.
+
 (* canonical output for the correspondence harness: 0 :: all pixels of the bitmap, row by row *)
 Definition enc_paint (r : res bitmap) : list Z := enc_res (rmap (fun m => concat (rows m)) r).
 
